@@ -259,6 +259,7 @@ def run_jobs(jobs, nproc=None, progress=None):
     nproc = nproc or chk.ncpu()
     if chk.ONLY:
         jobs = [j for j in jobs if chk.ONLY in j.get('label', '')]
+    nm.tmpdir()   # created before the fork: the workers put their scratch files under it and the parent removes it at exit
     ctx = mp.get_context('fork')
     with ctx.Pool(min(nproc, max(1, len(jobs))), maxtasksperchild=8) as pool:
         done = 0
